@@ -155,6 +155,9 @@ class FixedBoxStub(StubGP):
         self.halves = np.asarray(halves, float)
 
     def _state(self, i):
+        if self.centres.ndim == 3:  # a schedule: [version][design][objective]; the last entry persists
+            v = min(self.version, len(self.centres) - 1)
+            return self.halves[v][i], self.centres[v][i] - self.mu[i]
         return self.halves[i], self.centres[i] - self.mu[i]
 
 
